@@ -33,6 +33,28 @@ CLAIMED["C04"] = dict(
          "Every run replays random histories (prefix chains, relocations, clone, postcard round trips) in the model with the implementation's own free-slot choices and compares arrays and free set exactly.",
     note="full. Trusted: Coq kernel, the hand model Trie/TrieModel.v being tied by per-insertion array equality (sampled), serde views of the arrays, indices < 2^31, postcard round trip observed not proved.",
     ref="6/C04, A.1")
+KKC_NOTE = ("Trusted: Coq kernel; translators gen_speech/gen_score (edge/virtual/head tables, mergeability, node-score constants regenerated every run); the hand models "
+            "Kkc/Lattice.v, Score.v, Heap.v (replica of std BinaryHeap), Search.v tied by exact comparison of lattice, forward scores and candidate lists (order, chains, priorities) on every run; "
+            "i32 overflow of scores not modelled; dictionary = words looked up by their own reading.")
+CLAIMED["C01"] = dict(
+    technique="Coq proof (lattice invariant by induction over the five construction passes, composed with the n-best theorem) + exact lattice/candidate correspondence",
+    text="C01_tiling: for every non-empty input, dictionary, context, learned state and n, every candidate returned by the model of get_candidates is BOS, dictionary words, at most one verbatim tail, EOS, "
+         "whose readings concatenate to the input and whose written forms concatenate to the text; construction never panics (C01_from_input_total) and the search terminates (C01_search_terminates).",
+    note="full. " + KKC_NOTE, ref="6/C01")
+CLAIMED["C02"] = dict(
+    technique="Coq proof (Viterbi exactness, A* invariant, binary-heap replica correctness, termination measure) + correspondence incl. tie order + exhaustive path oracle on the implementation",
+    text="C02_nbest: at most n entries, distinct texts, non-increasing priority, each entry a connectable BOS-EOS path whose priority is its score and the best score of its text, and every connectable path's "
+         "text is present unless the list is full and the path scores no better than the last entry; forward scores are exact maxima (C02_forward_exact); the heap replica pops a maximum (C02_heap_pop); enough fuel always exists (C02_fuel).",
+    note="full. " + KKC_NOTE, ref="6/C02, A.2")
+CLAIMED["C03"] = dict(
+    technique="Coq proof (lattice theorems + n-best completeness + trie set semantics of C04) + correspondence through the real trie",
+    text="C03_only_dictionary, C03_offers_prefix_words, C03_after_prefix (independent words), and C03_with_trie: a trie built by any insertion history in front of the map shows the engine exactly the words whose readings were inserted.",
+    note="full; the after-prefix clause is proved for independent words (a standard-dictionary particle after a prefix is formally refuted in Props/Lattice.v as a statement artefact, not a code defect). " + KKC_NOTE, ref="6/C03")
+CLAIMED["C16"] = dict(
+    technique="Coq proof (context-independence of edge validity, proper bonus algebra, lattice monotonicity in head-mergeability) + kernel-checked refutation witness + four-context correspondence",
+    text="Proved: proper mode builds the same lattice, has the same edges, same candidate set, and adds exactly PROPER_BONUS per proper noun; every context only adds to the normal set; no result begins with an ancillary particle/auxiliary. "
+         "Refuted with a witness (C16_added_begin_with_suffix_refuted, known finding F10): foreign-word context adds 新は, which begins with a prefix.",
+    note="full, with one recorded known finding (F10). " + KKC_NOTE, ref="6/C16")
 PENDING = {}
 
 def main():
